@@ -107,7 +107,7 @@ Definition ph_eqb : ph -> ph -> bool := ph_eqb_with gen_tensor_eq_fields gen_con
 (* ---- the key of one call: frozen option values and placeholders, position by position ---- *)
 Inductive item := IVal (v : fv) | IPh (p : ph).
 Definition item_eqb (a b : item) : bool :=
-  match a, b with IVal x, IVal y => key_eq true x y | IPh p, IPh q => ph_eqb p q | _, _ => false end.
+  match a, b with IVal x, IVal y => key_eq ByTypeAndRepr x y | IPh p, IPh q => ph_eqb p q | _, _ => false end.
 Fixpoint ckey_eqb (a b : list item) : bool :=
   match a, b with [] , [] => true | x :: r, y :: s => item_eqb x y && ckey_eqb r s | _, _ => false end.
 
